@@ -81,12 +81,13 @@ FLOAT_DTYPES = ("float", "float16", "float32", "float64", "int", "int32", "int64
 
 
 class Lin:
-    def __init__(self, model, func, input_name="input"):
+    def __init__(self, model, func, input_name="input", env=None, depth=0):
         self.M = model
         self.f = func
-        self.env = {input_name: L}
+        self.env = dict(env) if env is not None else {input_name: L}
         self.returns = []  # (node, kind)
         self.notes = []
+        self.depth = depth
 
     def kind(self, e):
         if e is None:
@@ -94,6 +95,8 @@ class Lin:
         if isinstance(e, ast.Constant):
             if isinstance(e.value, (int, float, complex)) and not isinstance(e.value, bool) and e.value == 0:
                 return Z
+            if e.value is None:
+                return Z  # the "no buffer yet" placeholder (output = None; output = alloc_or_widen(output, ...))
             return K
         if isinstance(e, ast.Name):
             return self.env.get(e.id, K)
@@ -174,6 +177,10 @@ class Lin:
             tgt = self.M.resolve_call(self.f, c)
             if tgt[0] == "ext" and tgt[1].split(".")[-1] in NP_CONST:
                 return NP_CONST[tgt[1].split(".")[-1]]
+            if isinstance(f, ast.Attribute) and isinstance(f.value, ast.Name) and f.value.id in ("xp", "np") and f.attr in NP_CONST:
+                return NP_CONST[f.attr]  # array module received as a parameter
+            if isinstance(f, ast.Attribute) and f.attr in METH_KEEP | {"astype"} and self.kind(f.value) == Z:
+                return Z  # view / copy / cast of a zero buffer is a zero buffer
             return K
         tgt = self.M.resolve_call(self.f, c)
         if tgt[0] == "repo" and tgt[1].qual in CONST_FUNCS:
@@ -206,6 +213,16 @@ class Lin:
                     out = mul(out, bk.get(p, K))
                 for p in anti:
                     out = mul(out, conj(bk.get(p, K)))
+                return out
+            # any other repo helper: type its own body under the kinds of the actual arguments (context-sensitive, depth <= 3)
+            if self.depth < 3 and not fn.cls:
+                sub = Lin(self.M, fn, env={p: k for p, k in bk.items()}, depth=self.depth + 1)
+                rets = sub.run()
+                if not rets:
+                    return K
+                out = rets[0][1]
+                for _, k in rets[1:]:
+                    out = join(out, k)
                 return out
             return N
         if tgt[0] == "ext":
